@@ -241,7 +241,27 @@ def run_check_c17(tier, seed, workers=None, cases=None):
         for s in servers:
             s.close()
     by_sig = {}
+    warm_done = False
     for v in inproc:
+        if v.get("signature", {}).get("outcome") == "differs:warm_process" and not v.get("kf"):
+            # a re-run late in the worker's life differed: reproduce it in fresh interpreters as a
+            # process-history difference (predecessors = that worker's earlier cases), shrink, replay-able
+            if warm_done:
+                continue
+            idx = v["case"].get("index")
+            pv = None
+            if idx is not None:
+                pv = R.process_history_violation(pid, seed, cfg, idx, per, wall, pred_b=[], hashseed=v.get("pythonhashseed", H[0]))
+                if pv is None:
+                    # the state may have been left behind by cases that ran *after* it: the whole shard
+                    shard = [i for i in range(idx % per, n, per) if i != idx]
+                    pv = R.process_history_violation(pid, seed, cfg, idx, per, wall, pred_b=[], pred_a=shard,
+                                                     hashseed=v.get("pythonhashseed", H[0]), max_trials=12)
+            if pv is not None:
+                pv["signature"] = {"property": pid, "outcome": "differs:warm_process"}
+                new_viol.append(pv)
+                warm_done = True
+                continue
         if v.get("kf"):
             kf_seen[v["kf"]] = kf_seen.get(v["kf"], 0) + v.get("count_in_worker", 1)
             continue
